@@ -146,35 +146,38 @@ def opEnc (kind spec : String) : M String :=
   | some .unmodelled => none
 
 mutual
-def clearRawVal : GoVal → GoVal
-  | .csig _ p _ u sig => .csig none p none (clearRawPairs u) sig
-  | .csigs cs => .csigs (clearRawList cs)
+def clearRawVal (r : Option Bytes) : GoVal → GoVal
+  | .csig _ p _ u sig => .csig r p r (clearRawPairs r u) sig
+  | .csigs cs => .csigs (clearRawList r cs)
   | v => v
-def clearRawList : List GoVal → List GoVal
+def clearRawList (r : Option Bytes) : List GoVal → List GoVal
   | [] => []
-  | x :: xs => clearRawVal x :: clearRawList xs
-def clearRawPairs : List (GoVal × GoVal) → List (GoVal × GoVal)
+  | x :: xs => clearRawVal r x :: clearRawList r xs
+def clearRawPairs (r : Option Bytes) : List (GoVal × GoVal) → List (GoVal × GoVal)
   | [] => []
-  | (k, v) :: r => (k, clearRawVal v) :: clearRawPairs r
+  | (k, v) :: rest => (k, clearRawVal r v) :: clearRawPairs r rest
 end
 
-def Hdrs.clearRaw (h : Hdrs) : Hdrs := { rawP := none, p := h.p, rawU := none, u := clearRawPairs h.u }
-def SigV.clearRaw (s : SigV) : SigV := { s with h := s.h.clearRaw }
+/-- discard the retained raw buckets: `r = none` is `RawX = nil`, `r = some []` is `RawX = RawX[:0]`
+    (an application that truncates instead of assigning nil) -/
+def Hdrs.clearRawTo (r : Option Bytes) (h : Hdrs) : Hdrs := { rawP := r, p := h.p, rawU := r, u := clearRawPairs r h.u }
+def Hdrs.clearRaw (h : Hdrs) : Hdrs := h.clearRawTo none
+def SigV.clearRawTo (r : Option Bytes) (s : SigV) : SigV := { s with h := s.h.clearRawTo r }
+def SigV.clearRaw (s : SigV) : SigV := s.clearRawTo none
 
 /-- one decode / (clear) / encode cycle -/
-def reencOnce (kind : String) (clear : Bool) (data : Bytes) : Out (Out Bytes) :=
+def reencOnce (kind : String) (clear : Option (Option Bytes)) (data : Bytes) : Out (Out Bytes) :=
+  let ch (h : Hdrs) : Hdrs := match clear with | some r => h.clearRawTo r | none => h
+  let cs (s : SigV) : SigV := match clear with | some r => s.clearRawTo r | none => s
   match kind with
-  | "s1" => (Sign1.unmarshal true data).bind fun m =>
-      .ok (Sign1.marshal true (if clear then { m with h := m.h.clearRaw } else m))
-  | "s1u" => (Sign1.unmarshal false data).bind fun m =>
-      .ok (Sign1.marshal false (if clear then { m with h := m.h.clearRaw } else m))
+  | "s1" => (Sign1.unmarshal true data).bind fun m => .ok (Sign1.marshal true { m with h := ch m.h })
+  | "s1u" => (Sign1.unmarshal false data).bind fun m => .ok (Sign1.marshal false { m with h := ch m.h })
   | "sm" => (Sign.unmarshal data).bind fun m =>
-      .ok (Sign.marshal (if clear then { m with h := m.h.clearRaw, sigs := m.sigs.map SigV.clearRaw } else m))
+      .ok (Sign.marshal { m with h := ch m.h, sigs := m.sigs.map cs })
   | "key" => (Key.unmarshal data).bind fun k => .ok k.marshal
-  | _ => (Signature.unmarshal data).bind fun s =>
-      .ok (Signature.marshal (if clear then s.clearRaw else s))
+  | _ => (Signature.unmarshal data).bind fun s => .ok (Signature.marshal (cs s))
 
-def opReenc (kind : String) (data : Bytes) (clear : Bool) : Nat → List String → M String
+def opReenc (kind : String) (data : Bytes) (clear : Option (Option Bytes)) : Nat → List String → M String
   | 0, outs => some ("ok " ++ joinWith " " outs.reverse)
   | n + 1, outs =>
     match reencOnce kind clear data with
@@ -857,7 +860,7 @@ def runLine (line : String) : String :=
     | "enc" :: kind :: spec :: _ => opEnc kind spec
     | "reenc" :: kind :: hexs :: mode :: n :: _ =>
       (match unhexArg hexs with
-       | some (some data) => opReenc kind data (mode == "clear") (n.toNat?.getD 1) []
+       | some (some data) => opReenc kind data (if mode == "clear" then some none else if mode == "trunc" then some (some []) else none) (n.toNat?.getD 1) []
        | _ => some "bad-op")
     | "s1" :: a => opS1 a
     | "s1h" :: a => opS1H a
